@@ -108,7 +108,7 @@ package arvados
 // fills the new tail, and is copy-on-write: while a background flush shares
 // the buffer (flushing != nil) growing never touches the shared array and
 // detaches from the flush.
-//@ func memSegment.Truncate property C08
+//@ func memSegment.Truncate property C08,C09
 //@   requires n >= 0
 //@   modifies memSegment.buf memSegment.flushing mem:byte
 //@   ensures len(me.buf) == n
@@ -142,6 +142,16 @@ package arvados
 //@ func storedSegment.ReadAt property C08,C03 safety -bounds
 //@   requires off >= 0 && se.length >= 0 && se.offset >= 0
 //@   calls fsBackend.ReadAt#*: requires $0 == se.locator && $2 >= se.offset && $2 + len($1) <= se.offset + se.length && len($1) <= len(old(p))
+//@   ghost called bool = false
+//@   ghost berr error = nil
+//@   ghost bn int = 0
+//@   calls fsBackend.ReadAt#*: set called = true
+//@   calls fsBackend.ReadAt#*: set berr = $r1
+//@   calls fsBackend.ReadAt#*: set bn = $r0
+//@   # a failed block read (bad checksum, short body, not found ...) is never
+//@   # turned into a clean end of file
+//@   ensures called ==> n == bn && (berr != nil ==> err == berr) && (berr == nil ==> err == nil || err == io.EOF)
+//@   ensures !called ==> n == 0 && err == io.EOF
 
 //@ iface segment.Slice
 //@   modifies nothing
